@@ -342,10 +342,23 @@ def t_driver_reuse(item):
         run(md, base, steps1, 5)
         second = run(md, other, steps2, 9)
         fresh = run(engine_obj(), other, steps2, 9)
+        # the SAME Molecule object continued by a second run() call: with the driver of the first call, and with a new
+        # driver - the molecule carries the same state into both, so any difference is state kept by the driver object
+        def continued(same_driver):
+            d1 = engine_obj()
+            molecule, _ = sp.build([base], d1[1])
+            with contextlib.redirect_stdout(io.StringIO()):
+                d1[0].run(molecule, steps=steps1, reuse_P=True, remove_com=None, seed=5)
+                d2 = d1 if same_driver else engine_obj()
+                d2[0].run(molecule, steps=steps2, reuse_P=True, remove_com=None, seed=9)
+            return {"x": sp.to_np(molecule.coordinates), "v": sp.to_np(molecule.velocities), "E": sp.to_np(molecule.Etot), "dm": sp.to_np(molecule.dm)}
+
+        ca, cb = continued(True), continued(False)
+        dev2 = {q: float(np.abs(ca[q] - cb[q]).max()) for q in ca}
     finally:
         os.chdir(cwd)
         MD.rm(wd)
-    return {"dev": {q: float(np.abs(second[q] - fresh[q]).max()) for q in second}}
+    return {"dev": {q: float(np.abs(second[q] - fresh[q]).max()) for q in second}, "dev_same_molecule": dev2}
 
 
 # ------------------------------------------------------------------ driver
@@ -376,6 +389,10 @@ def run(chk, tier, seed):
         # measured on the healthy tree: bitwise identical
         if worst > 1e-12:
             chk.violation(desc, f"{key}: the second trajectory of a reused driver object differs from that of a new driver: {r['dev']}", replay={"part": "f", "item": list(it)})
+        w2 = max(r["dev_same_molecule"].values())
+        # measured on the healthy tree: bitwise identical
+        if w2 > 1e-12:
+            chk.violation(dict(desc, clause="same_molecule"), f"{key}: the same Molecule continued by a second run() call gives another trajectory with the driver of the first call than with a new driver: {r['dev_same_molecule']}", replay={"part": "f", "item": list(it)})
     # ---- (a)
     items = []
     for engine in ("xl", "ksa"):
@@ -554,7 +571,7 @@ def replay(payload):
     if part == "f":
         r = t_driver_reuse(tuple(it))
         print(r)
-        return max(r["dev"].values()) <= 1e-12
+        return max(r["dev"].values()) <= 1e-12 and max(r["dev_same_molecule"].values()) <= 1e-12
     if part == "a":
         r = t_recurrence(tuple(it))
     elif part == "b":
